@@ -59,6 +59,32 @@ Definition c11_cell_m (k : c11_cell_case) : bool :=
 Definition c11_cell_violations (l : list c11_cell_case) : list nat := indices_where (fun k => negb (c11_cell_v k)) l.
 Definition c11_cell_mismatches (l : list c11_cell_case) : list nat := indices_where (fun k => negb (c11_cell_m k)) l.
 
+(* ---------- stray acknowledgements before the cause ---------- *)
+(* call (9 = no call blocked), point, cause, k, result, retryable, Done() closed, reader gone,
+   the marker PUBLISH sent after the stray packets was handed to the handler (= the reader is alive while the
+   connection is healthy), anything left/stuck *)
+Definition c11_stray_case := (N * N * N * N * N * bool * bool * bool * bool * bool)%type.
+
+Definition dec_ocall (n : N) : option (option call) :=
+  match n with 9 => Some None | _ => match dec_call n with Some c => Some (Some c) | None => None end end.
+
+Definition c11_stray_v (x : c11_stray_case) : bool :=
+  let '(c, p, z, k, r, retry, done, rexit, marker, bad) := x in
+  match dec_ocall c, dec_point p, dec_cause z with
+  | Some c, Some p, Some z => marker && negb bad && stray_ok c z (Some (mkO (dec_res r) retry done rexit))
+  | _, _, _ => false
+  end.
+
+Definition c11_stray_m (x : c11_stray_case) : bool :=
+  let '(c, p, z, k, r, retry, done, rexit, marker, bad) := x in
+  match dec_ocall c, dec_point p, dec_cause z with
+  | Some c, Some p, Some z => marker && has_outcome (mkO (dec_res r) retry done rexit) (stray_outcomes c p z (N.to_nat k))
+  | _, _, _ => false
+  end.
+
+Definition c11_stray_violations (l : list c11_stray_case) : list nat := indices_where (fun k => negb (c11_stray_v k)) l.
+Definition c11_stray_mismatches (l : list c11_stray_case) : list nat := indices_where (fun k => negb (c11_stray_m k)) l.
+
 (* ---------- several calls blocked at once ---------- *)
 (* (call, point) list, indices whose context is cancelled first, connection-ending cause,
    (result, retryable) list, Done() closed, reader gone, anything left/stuck *)
